@@ -52,6 +52,9 @@ pub enum Sock {
     NotJson,
     EmptyClose,
     Refused,
+    /// well-formed JSON of the right shape whose enum payloads are outside what the daemon can produce
+    /// (clockAccuracy ProfileSpecific(200), timeSource ProfileSpecific(200))
+    OutOfRange,
 }
 
 const REQ: &[u8] = b"GET /metrics HTTP/1.1\r\nHost: localhost\r\nAccept: */*\r\n\r\n";
@@ -81,8 +84,8 @@ pub const CLIENTS_FULL: [Client; 22] = [
     Client::ResetBefore,
     Client::ResetAfterSend,
 ];
-pub const SOCKS_REDUCED: [Sock; 4] = [Sock::Valid, Sock::Truncated, Sock::EmptyClose, Sock::Refused];
-pub const SOCKS_FULL: [Sock; 6] = [Sock::Valid, Sock::Truncated, Sock::WrongShape, Sock::NotJson, Sock::EmptyClose, Sock::Refused];
+pub const SOCKS_REDUCED: [Sock; 5] = [Sock::Valid, Sock::Truncated, Sock::EmptyClose, Sock::Refused, Sock::OutOfRange];
+pub const SOCKS_FULL: [Sock; 7] = [Sock::Valid, Sock::Truncated, Sock::WrongShape, Sock::NotJson, Sock::EmptyClose, Sock::Refused, Sock::OutOfRange];
 
 fn sock_behaviour(s: Sock, valid: &[u8]) -> SockBehaviour {
     match s {
@@ -92,6 +95,13 @@ fn sock_behaviour(s: Sock, valid: &[u8]) -> SockBehaviour {
         Sock::NotJson => SockBehaviour::Payload(b"<html>not json</html>".to_vec()),
         Sock::EmptyClose => SockBehaviour::EmptyClose,
         Sock::Refused => SockBehaviour::Refused,
+        Sock::OutOfRange => {
+            let mut v: serde_json::Value = serde_json::from_slice(valid).expect("valid payload parses");
+            v["instance"]["default_ds"]["clock_quality"]["clock_accuracy"] = serde_json::json!({"ProfileSpecific": 200});
+            v["instance"]["parent_ds"]["grandmaster_clock_quality"]["clock_accuracy"] = serde_json::json!({"ProfileSpecific": 255});
+            v["instance"]["time_properties_ds"]["time_source"] = serde_json::json!({"ProfileSpecific": 200});
+            SockBehaviour::Payload(serde_json::to_vec(&v).unwrap())
+        }
     }
 }
 
@@ -391,7 +401,7 @@ pub fn run(ctx: &Ctx) -> i32 {
         Finish {
             ctx,
             level: "fault_enumeration",
-            rule: "the statime-metrics-exporter binary built from /repo is run as a subprocess; a case is a sequence of (client behaviour, observation-socket behaviour) pairs followed by a probe (well-formed GET with valid JSON behind it). Client behaviours: well-formed GET, close after 0/1/3/17 bytes, close one byte before the end of the header terminator, 2048/2049/4096 bytes without terminator then close, POST/HEAD/lowercase get, GET split over 2-5 writes and split inside the header terminator, TCP reset before sending, reset after sending without reading the reply. Socket behaviours: valid JSON, truncated JSON, wrong-shape JSON, not JSON, accept-and-close, socket absent. All sequences of length 1 and 2 are enumerated exhaustively (quick: reduced alphabet), lengths 3-4 sampled, plus for every disturbing client a run of 14 (thorough also 40) in a row. Oracle: the probe gets a complete 200 response with matching Content-Length within 5 s; well-formed requests inside the sequence get 200 (500 when the socket misbehaved); on a miss the process is inspected (exited / spinning by CPU time / hanging). Non-trivial = the sequence contains a behaviour other than a well-formed GET with valid JSON; distinct by sequence.",
+            rule: "the statime-metrics-exporter binary built from /repo is run as a subprocess; a case is a sequence of (client behaviour, observation-socket behaviour) pairs followed by a probe (well-formed GET with valid JSON behind it). Client behaviours: well-formed GET, close after 0/1/3/17 bytes, close one byte before the end of the header terminator, 2048/2049/4096 bytes without terminator then close, POST/HEAD/lowercase get, GET split over 2-5 writes and split inside the header terminator, TCP reset before sending, reset after sending without reading the reply. Socket behaviours: valid JSON, truncated JSON, wrong-shape JSON, not JSON, accept-and-close, socket absent, well-formed JSON with out-of-range enum payloads (ProfileSpecific(200) accuracy / time source). All sequences of length 1 and 2 are enumerated exhaustively (quick: reduced alphabet), lengths 3-4 sampled, plus for every disturbing client a run of 14 (thorough also 40) in a row. Oracle: the probe gets a complete 200 response with matching Content-Length within 5 s; well-formed requests inside the sequence get 200 (500 when the socket misbehaved); on a miss the process is inspected (exited / spinning by CPU time / hanging). Non-trivial = the sequence contains a behaviour other than a well-formed GET with valid JSON; distinct by sequence.",
             assumptions: vec!["only clients that go away are generated (a client that stays connected and silent is not)".into(), "loopback TCP and Unix sockets of the sandbox kernel".into()],
             min_nontrivial: 10,
         },
